@@ -49,6 +49,11 @@ CHECKS = {
             "Hundreds of thousands of mutated btor2 texts (generated files and corpus files) are fed to parse_str; panics and aborts are violations (except on documented unsupported operators); accepted systems are type-checked node by node by an independent checker, init/next/root types and symbol declarations verified. Held on the mutants executed.",
             "Mutation-based, not exhaustive; widths capped at 65536 to keep memory exhaustion apart from crashes.",
             "DESIGN.md §4 C18"),
+    "C09": ("exploration",
+            "runtime differential monitor: serialize -> parse_str round trip, positional comparison by reference / reference evaluator / lock-step reference simulation",
+            "Every system the writer accepts (generated systems and the 116 corpus designs) is written and read back into the same context; inputs, states, outputs, bads and constraints are matched by position and type, functions compared by reference, else by the reference evaluator under positionally translated assignments (exhaustive <= 14 symbol bits) and a 20-step lock-step reference simulation; explicit distinct names are checked over a second cycle. Held on the systems executed.",
+            "Equivalence by evaluation; init expressions only read earlier states; writer-rejected systems are skipped.",
+            "DESIGN.md §4 C09"),
 }
 
 NOT_YET = {}
